@@ -271,6 +271,7 @@ class Zygote:
         self.cov = {}
         self.cov_first = {}
         self.cov_lazy = {}
+        self.cov_writes = {}
 
 
 Z = Zygote()
@@ -377,11 +378,16 @@ def _ref_task(item):
     cov.install()
     rec = O.execute(Z.op_by_name[opname], env)
     cov.uninstall()
-    # the same call again on the now warm instances: what it no longer executes is lazy initialisation
+    # the same call again on the now warm instances: what it no longer executes is lazy initialisation;
+    # attribute assignments on long-lived objects during this warm call are per-call shared-state writes
     warm = S.CoverageCollector(codes)
+    writes = S.WriteRecorder()
     warm.install()
+    writes.install()
     O.execute(Z.op_by_name[opname], env)
+    writes.uninstall()
     warm.uninstall()
+    rec["cov_writes"] = sorted(writes.locs)
     rec["cov"] = sorted(cov.locs)
     rec["cov_first"] = sorted(cov.locs - warm.locs)
     # lazy initialisation inside functions that also run on warm instances (check-then-build, memo fill)
@@ -418,6 +424,7 @@ def compute_reference(opnames=None, timeout=60.0, coverage=False):
             Z.cov[items[idx][0]] = frozenset(value.pop("cov"))
             Z.cov_first[items[idx][0]] = frozenset(value.pop("cov_first"))
             Z.cov_lazy[items[idx][0]] = frozenset(value.pop("cov_lazy"))
+            Z.cov_writes[items[idx][0]] = frozenset(value.pop("cov_writes"))
         R[(items[idx][0], frozenset(items[idx][1]))] = value
     if len(R) != len(items):
         raise HarnessError("reference table incomplete")
